@@ -919,6 +919,10 @@ theorem filterMap_task_keys (w : World) (rs : List Report) :
     | fail => simp only [List.filterMap_cons, Report.task?, Report.key]; exact ih
     | succ p b o => simp [Report.task?, Report.key, ih]
 
+theorem failMixed_fail (w : World) (rs : List Report) (h : Report.fail ∈ rs) : Report.fail ∈ failMixed w rs := by
+  unfold failMixed
+  exact List.mem_map.2 ⟨Report.fail, h, rfl⟩
+
 /-! ### Reports of a session -/
 
 theorem foldl_collectStep_reports (env : Env) (enum : List String → List String) : ∀ (files : List Path) (st : World × List Report) (r : Report),
